@@ -410,6 +410,9 @@ func mapOf(r *rand.Rand, model, els map[string]any, o ReprOpts, t *ReprTrace) an
 	named := false
 	if !o.NoNamedKeys && r.IntN(3) == 0 {
 		keyT = reflect.TypeOf(NKey(""))
+		if r.IntN(3) == 0 {
+			keyT = reflect.TypeOf(json.Number("")) // a string kind that number-aware code treats specially; as a KEY it is just a string
+		}
 		named = true
 	}
 	build := func(elemT reflect.Type, vals map[string]any) any {
@@ -448,7 +451,7 @@ func mapOf(r *rand.Rand, model, els map[string]any, o ReprOpts, t *ReprTrace) an
 		}
 	}
 	if named {
-		t.note("map[NKey]any")
+		t.note("map[" + keyT.Name() + "]any")
 		return build(anyType, els)
 	}
 	if mode == 0 {
